@@ -59,6 +59,14 @@ def scenario(big: bool = False) -> Any:
             for j, m in enumerate(d["msgs"]):
                 if j % 2 == 0 and m["kind"] not in ("bad", "unknown"):
                     m["late_labels"] = {"trace": f"t{j}"}
+        if d.pop("same_ids"):
+            # several messages carry the task id of an earlier one (a redelivery, a retry / requeue keeps the id, a client re-using ids):
+            # each is a message of its own and runs once, also while the other one is still running
+            first = next((j for j, m in enumerate(d["msgs"]) if m["kind"] in ("async", "sync")), None)
+            if first is not None:
+                for j, m in enumerate(d["msgs"]):
+                    if j > first and j % 2 == (first + 1) % 2 and m["kind"] in ("async", "sync"):
+                        m["dup_of"] = first
         ph = d.pop("pre_hook")
         if ph is not None:
             d["mws"] = [{"pre_execute": {"async": ph, "fail_on": []}}]
@@ -79,7 +87,8 @@ def scenario(big: bool = False) -> Any:
         # a Future / another awaitable (all allowed by the hook's signature): messages still run exactly once
         "pre_hook": st.sampled_from([None, None, None, False, True, "deferred", "future", "awaitable"]),
         "api_restart": st.sampled_from([False] * 7 + [True]),
-        "late_labels": st.sampled_from([False, False, True]),      # instant at which the task `dyntask` gets registered on the running worker
+        "late_labels": st.sampled_from([False, False, True]),
+        "same_ids": st.sampled_from([False, False, False, True]),      # instant at which the task `dyntask` gets registered on the running worker
     }).map(fin)
 
 
@@ -157,7 +166,7 @@ def run_case(sc: Dict[str, Any]) -> Outcome:
         lookahead_done = any(e[1] == "take" for e in tr[decision + 1:])
     out.nontrivial = bool(inflight or mixed)
     out.classes = [c for c, f in (("inflight_at_decision", inflight), ("mixed_valid_skipped", mixed),
-                                  ("take_after_decision", lookahead_done), ("has_N", sc.get("N")),
+                                  ("take_after_decision", lookahead_done), ("has_N", sc.get("N")), ("messages_sharing_a_task_id", any("dup_of" in sp for sp in specs)),
                                   ("has_stop", sc.get("stop") is not None), ("returned", res["returned"]), ("run_receiver_task_resubscribes", bool(sc.get("via_api"))),
                                   ("dyn_before_and_after_registration", ireg is not None and any(specs[i]["kind"] == "dyn" and takepos[i] < ireg for i in taken)
                                    and any(specs[i]["kind"] == "dyn" and takepos[i] > ireg for i in taken))) if f]
